@@ -13,7 +13,7 @@ func init() {
 		Title:     "A NACK retransmits exactly the packet originally sent under that number",
 		Technique: "must-fact dataflow and value provenance on gotNACK (Reverse -> GetPacket -> Write chain), SSA return-value rules on rtpUpTrack.GetPacket, the shared packetmap rules (Reverse is the affine inverse of the recorded mapping, applied only to members of the image interval), the shared cache lookup rules, fill-count discipline",
 		Decides: "R3.1: in gotNACK the number looked up is the NACKed number itself, the source seqno fetched is result #1 of Reverse and only when Reverse succeeded, the fetch is from the down track's own publisher track, the bytes re-sent are exactly buf[:l] for the current non-zero l, and they are re-sent through rtpDownTrack.Write of the same track (so the recorded mapping is re-applied, C01 R1.4). " +
-			"R3.2: the packetmap rules - what Map hands out is what addMapping records; direct and Reverse apply an interval's delta only to members of the interval (resp. of its image first+delta); Reverse returns seqno - delta; the interval created by the first Drop ends just before the dropped packet. " +
+			"R3.2: the packetmap rules - what Map hands out is what addMapping records; direct and Reverse apply an interval's delta only to members of the interval (resp. of its image first+delta); Reverse returns seqno - delta; the interval created by the first Drop ends just before the dropped packet; Drop acts only on the next in-order packet, so no withheld number can fall inside a later interval. " +
 			"R3.3: rtpUpTrack.GetPacket looks its own seqno up in its own cache into the caller's buffer and returns that lookup's count or 0. " +
 			"R3.4: the cache lookup rules of C05 (R5.1): only the slot whose seqno compared equal is copied out.",
 		NotDecided: []string{
@@ -29,10 +29,11 @@ func init() {
 func runC03(c *Ctx) {
 	p := c.P
 	c.Rule("R3.1", "E2/E4", "gotNACK: Reverse(s) -> GetPacket(result #1, only if ok) -> Write(buf[:l]) on the same track", 6)
-	c.Rule("R3.2", "E6", "packetmap: recorded mapping = handed-out mapping; Reverse is its inverse on the image interval", 8)
+	c.Rule("R3.2", "E6", "packetmap: recorded mapping = handed-out mapping; Reverse is its inverse on the image interval; only the next in-order packet is withheld", 16)
 	c.Rule("R3.3", "E6", "rtpUpTrack.GetPacket returns the count of the cache lookup for that seqno, or 0", 2)
-	c.Rule("R3.4", "E2", "cache lookups copy out only the slot whose seqno compared equal", 5)
+	c.Rule("R3.4", "E2", "cache lookups copy out only the slot whose seqno compared equal", 6)
 	pmMappingRules(c, "R3.2")
+	pmDropRules(c, "R3.2", "R3.2")
 	cacheLookupRules(c, "R3.4")
 
 	// ---- R3.1 ----
